@@ -208,6 +208,44 @@ def run(chk):
         chk.ok("C20.order", ps, "pre_shutdown() asks every connection to close after its current request")
     else:
         chk.violation("C20.order", ps, "for conn in self._connections: conn.close()", "", "idle keep-alive connections are not closed at shutdown")
+    # ---- lost client: a handler that goes on after its client disconnected is still waited for and cancelled by shutdown() --------------
+    cl_ = repo.func(PROTO, "RequestHandler.connection_lost")
+    drops_task = [a for a in ast.walk(cl_.node) if isinstance(a, ast.Assign) and norm.raw(a.targets[0]) == "self._task_handler" and isinstance(a.value, ast.Constant) and a.value.value is None]
+    for a in drops_task:
+        cls_ = PC.pc(a, raw=True)
+        guarded = any(any(l.text == "self._request_in_progress" and not l.pos for l in c) and all((l.pos and "handler_cancellation" in l.text) or (l.text == "self._request_in_progress" and not l.pos) for l in c) for c in cls_)
+        if guarded:
+            chk.ok("C20.order", a, "connection_lost() forgets the handler task only when it was cancelled there or no request is in progress")
+        else:
+            chk.violation("C20.order", a, K.short(a), "(handler_cancellation | !(self._request_in_progress))",
+                          "connection_lost() forgets the task of a handler that keeps running (handler_cancellation off): shutdown() waits one timeout for it and then has nothing to cancel; the handler outlives cleanup() and the exit of the cleanup contexts")
+    # ---- abort: the connection of a handler that had to be cancelled is not left waiting for its peer to read ---------------------------
+    canc = K.nodes_matching(sh, "self._task_handler.cancel()")
+    if canc and K.exprs(sh, "self.transport.abort()"):
+        ab = K.exprs(sh, "self.transport.abort()")[0][0]
+        if PC.has_lit(PC.pc(ab), "self._request_in_progress", True) is not None:
+            chk.ok("C20.order", ab, "shutdown(): the transport of a handler that was cancelled is aborted (force_close() alone waits for the write buffer to drain)")
+        else:
+            chk.violation("C20.order", ab, K.short(ab), "(self._request_in_progress)", "shutdown() aborts connections whose handler finished in time: their responses are truncated")
+    else:
+        chk.violation("C20.order", sh, "self.force_close()", "self.transport.abort() when the handler had to be cancelled",
+                      "force_close() ends in transport.close(), which waits for the write buffer to drain: the connection of a handler blocked on a client that stopped reading is still open when cleanup() returns")
+    # ---- worker: the gunicorn worker is an entry point too -----------------------------------------------------------------------------
+    try:
+        wr = repo.func("aiohttp/worker.py", "GunicornWebWorker._run")
+    except AnalysisError:
+        wr = None
+    if wr is not None:
+        for c, _b in K.exprs(wr, "runner.setup()"):
+            okw = False
+            for t in prog.enclosing(c, (ast.Try,)):
+                if prog.in_body_of(c, t, "body") and (any(M.contains(s_, "runner.cleanup()") for s_ in t.finalbody)
+                                                        or any(M.contains(h, "runner.cleanup()") and (h.type is None or "BaseException" in PC.handler_types(h)) for h in t.handlers)):
+                    okw = True
+            if okw:
+                chk.ok("C20.entry", c, "GunicornWebWorker._run: runner.setup() is inside a try that awaits runner.cleanup() when startup fails")
+            else:
+                chk.violation("C20.entry", c, "await runner.setup()", "try: ... except BaseException: await runner.cleanup(); raise", "gunicorn worker: when a later startup step fails, contexts whose startup completed are never exited")
     # ---- drain: a request that is being handled keeps receiving its input while the server waits for it ---------------------------
     dr = repo.func(PROTO, "RequestHandler.data_received")
     drops = [r for r in ast.walk(dr.node) if isinstance(r, ast.Return) and r.value is None and any(t in norm.fmt_cnf(PC.pc(r)) for t in ("self._close", "self._force_close"))]
@@ -226,6 +264,12 @@ def run(chk):
         chk.ok("C20.idle", rc, "close(): marks the connection closing and cancels the idle wait (an idle connection stops at once)")
     else:
         chk.violation("C20.idle", rc, "self._close = True; self._waiter.cancel()", "", "close() does not stop an idle keep-alive connection")
+    idle_close = [c for c, _b in K.exprs(rc, "self.transport.close()") if PC.has_lit(PC.pc(c), "self._waiter.done()", False) is not None]
+    if idle_close:
+        chk.ok("C20.idle", idle_close[0], "close(): an idle connection (waiter still pending) has its transport closed at once")
+    else:
+        chk.violation("C20.idle", rc, "self._waiter.cancel()", "if not self._waiter.done(): self.transport.close()",
+                      "close() only cancels the idle wait: the request loop ends with CancelledError and nothing closes the transport, so an idle keep-alive connection stays open (swallowing whatever is sent on it) until Server.shutdown() runs, after all on_shutdown handlers")
     rh = repo.cls(PROTO, "RequestHandler")
     for name, m in rh.methods.items():
         for c, _b in K.exprs(m, "self.transport.close()"):
